@@ -25,6 +25,7 @@ type BankKeeper interface {
 	GetAllBalances(ctx sdk.Context, addr sdk.AccAddress) sdk.Coins
 	GetBalance(ctx sdk.Context, addr sdk.AccAddress, denom string) sdk.Coin
 	SetBalances(ctx sdk.Context, addr sdk.AccAddress, balances sdk.Coins) error
+	SetBalance(ctx sdk.Context, addr sdk.AccAddress, balance sdk.Coin) error
 	LockedCoins(ctx sdk.Context, addr sdk.AccAddress) sdk.Coins
 	SpendableCoins(ctx sdk.Context, addr sdk.AccAddress) sdk.Coins
 
